@@ -74,6 +74,7 @@ retry_fetch_lv:
     std::size_t lv_pos{0};
     link_or_value* lv_ptr = target_border->get_lv_of(
             key_slice, key_slice_length, v_at_fetch_lv, lv_pos);
+    YAKUSHIMA_VERIF_POINT(1);
 
     /**
      * check whether it should get from this node.
